@@ -169,7 +169,7 @@ Qed.
 
 Lemma frame_publish st c m got : wf st -> frame st (snd (publish st c m got)).
 Proof.
-  intros W. destruct (negb (pub_err st c m) && pub_blk st c m) eqn:Hnb.
+  intros W. destruct (pub_stuck st c m) eqn:Hnb.
   - rewrite publish_unfold, Hnb. apply frame_refl; exact W.
   - pose proof (wf_step st (OPublish c m got) W) as W'. cbn [step] in W'.
     constructor; try (rewrite publish_unfold, Hnb; reflexivity).
